@@ -288,6 +288,15 @@ func (c *columnKey) Apply(chunk commit.Chunk, r *commit.Reader) {
 		case commit.Put:
 			value := string(r.Bytes())
 
+			// If the row is being re-keyed, its previous key must stop resolving to it
+			c.lock.Lock()
+			if previous := data[offset]; previous != value && fill.Contains(uint32(offset)) {
+				if at, ok := c.seek[previous]; ok && at == uint32(r.Offset) {
+					delete(c.seek, previous)
+				}
+			}
+			c.lock.Unlock()
+
 			fill[offset>>6] |= 1 << (offset & 0x3f)
 			data[offset] = value
 			c.lock.Lock()
